@@ -6,13 +6,15 @@ Contracts.C07Star — closes audit finding 7 (property C07):
  2. keyword order (`atom_line_keyword_order`, `keyword_order_text`) and the documented choices where
     the format is silent (`duplicate_key_last_wins`, `hydrogen_isotope_overrides_mass`);
  3. the prefix-scan side condition `NoOpt`: discharged for lines whose tokens are numbers, symbols and
-    `KEY=value` tokens (`wf_of_format`), and the concrete line on which it fails
+    `KEY=value` tokens (`noOpt_foreign_token`, `wf_of_format`), and the concrete line on which it fails
     (`quoted_value_misread`: a quoted string value with blanks).
+ 4. a concrete 19-line file with a star atom satisfying every hypothesis (`star_witness`).
+The bond types of the expanded bonds are in `Contracts.C07StarBonds` (which needs `Contracts.Bonds`).
 -/
 import Contracts.Reader
 import Contracts.V3000
 import Contracts.V30Line
-import Contracts.Bonds
+import Spec.BlissModel
 set_option autoImplicit false
 open Py
 
@@ -457,126 +459,6 @@ theorem starry_of_plain (env : DepEnv) (C : Ctab) (h : C.Plain env) : Starry env
     simpa [realIdx, hr] using h.bondEnds b hb
 
 
-/-! ## 1b. bond types (with `Contracts.Bonds`) -/
-
-open Contracts.Bonds (bondData bondData_ofPairs_same bondAttrs_wf bondData_symm graph_from_molecule_edges)
-
-/-- the bond dictionary on a pair of file indices all of whose linking bond lines state the type `t` -/
-theorem bondData_bondDict (C : Ctab) (m n t : Int) (hj : ∃ b ∈ C.bonds, (m, n) ∈ bondLinks C b)
-    (hall : ∀ b ∈ C.bonds, ((m, n) ∈ bondLinks C b ∨ (n, m) ∈ bondLinks C b) → intOf b.typ = t) :
-    bondData (bondDict C) (m - 1) (n - 1) = some (bondAttrs t) := by
-  unfold bondDict
-  apply bondData_ofPairs_same _ _ _ _ (bondAttrs_wf t)
-  · intro q hq hk
-    simp only [List.mem_flatMap, List.mem_map] at hq
-    obtain ⟨b', hb', t', ⟨p', hp', rfl⟩, rfl⟩ := hq
-    have : (m, n) ∈ bondLinks C b' ∨ (n, m) ∈ bondLinks C b' := by
-      rcases hk with hk | hk
-      · left; exact (dec_inj p' (m, n) hk) ▸ hp'
-      · right; exact (dec_inj p' (n, m) hk) ▸ hp'
-    simp only [hall b' hb' this]
-  · obtain ⟨b, hb, hl⟩ := hj
-    refine ⟨(dec (m, n), bondAttrs (intOf b.typ)), ?_, Or.inl rfl⟩
-    simp only [List.mem_flatMap, List.mem_map]
-    exact ⟨b, hb, dec (m, n), ⟨(m, n), hl, rfl⟩, rfl⟩
-
-/-- **C07, the graph of a connection table with star atoms, with bond types**: `fileMeaning_starry_graph` plus
-* the edge between the nodes of two non-star atom lines carries `bondData` of the bond dictionary on their
-  file indices (all links on that pair merged);
-* per bond line `bl` and per link `(m, n)` of `bl` — for a star bond: per listed endpoint —: if every bond
-  line linking the same two atoms states the same type (in particular if `bl` is the only one), the edge
-  carries exactly `{bond_type: type of bl}`, in both orientations;
-* pairs that are not linked carry no data. -/
-theorem fileMeaning_starry_graph_bonds (env : DepEnv) (C : Ctab) (h : Starry env C) (hneg : ¬ NegMassRad C)
-    (hself : ¬ SelfLink C) :
-    ∃ g, fileMeaning env C = .ok g ∧ g.WF ∧ g.nodeList = range ((real C).length : Int) ∧
-      (∀ (i : Nat) a, (real C)[i]? = some a → g.node.get? (i : Int) = some (withCode (attrsOf env a))) ∧
-      (∀ (i j : Nat) a b, (real C)[i]? = some a → (real C)[j]? = some b →
-        ((j : Int) ∈ g.nbrs (i : Int) ↔ linked C (intOf a.idx) (intOf b.idx))) ∧
-      (∀ (i j : Nat) a b, (real C)[i]? = some a → (real C)[j]? = some b →
-        g.edgeAttrs (i : Int) (j : Int) = bondData (bondDict C) (intOf a.idx - 1) (intOf b.idx - 1)) ∧
-      (∀ bl ∈ C.bonds, ∀ (i j : Nat) a b, (real C)[i]? = some a → (real C)[j]? = some b →
-        (intOf a.idx, intOf b.idx) ∈ bondLinks C bl →
-        (∀ b' ∈ C.bonds, ((intOf a.idx, intOf b.idx) ∈ bondLinks C b' ∨ (intOf b.idx, intOf a.idx) ∈ bondLinks C b') →
-          intOf b'.typ = intOf bl.typ) →
-        g.edgeAttrs (i : Int) (j : Int) = some (bondAttrs (intOf bl.typ)) ∧
-          g.edgeAttrs (j : Int) (i : Int) = some (bondAttrs (intOf bl.typ))) ∧
-      (∀ (i j : Nat) a b, (real C)[i]? = some a → (real C)[j]? = some b →
-        ¬ linked C (intOf a.idx) (intOf b.idx) → g.edgeAttrs (i : Int) (j : Int) = none) := by
-  have hm := h.molOK
-  obtain ⟨g, R, hg, wg, ng, ag, bg, eg⟩ :=
-    graph_from_molecule_edges env (atomDict env C) (bondDict C) hm.wf hm.attrs_wf hm.z hm.ends
-  have hlen : (atomDict env C).keys.length = (real C).length := by rw [atomDict_keys]; simp [realIdx]
-  have hat : ∀ (i : Nat) a, (real C)[i]? = some a →
-      (atomDict env C).get? (intOf a.idx - 1) = some (attrsOf env a) ∧ intOf a.idx - 1 ∈ (atomDict env C).keys ∧
-        (atomDict env C).keys.idxOf (intOf a.idx - 1) = i := by
-    intro i a ha
-    have hi : i < (atomDict env C).keys.length := by
-      rw [hlen]; exact (List.getElem?_eq_some_iff.mp ha).1
-    obtain ⟨k, v, hit, -, hget, hmem, hidx⟩ := general_at _ hm.wf i hi
-    simp only [atomDict, Ctab.atomDict, List.getElem?_map, ha, Option.map_some, Option.some.injEq, Prod.mk.injEq] at hit
-    obtain ⟨rfl, rfl⟩ := hit
-    exact ⟨hget, hmem, hidx⟩
-  have hadj : ∀ (i j : Nat) a b, (real C)[i]? = some a → (real C)[j]? = some b →
-      ((j : Int) ∈ g.nbrs (i : Int) ↔ linked C (intOf a.idx) (intOf b.idx)) := by
-    intro i j a b ha hb
-    obtain ⟨-, hma, hia⟩ := hat i a ha
-    obtain ⟨-, hmb, hib⟩ := hat j b hb
-    have := bg _ hma _ hmb
-    rw [hia, hib, linked_iff] at this
-    exact this
-  have hed : ∀ (i j : Nat) a b, (real C)[i]? = some a → (real C)[j]? = some b →
-      g.edgeAttrs (i : Int) (j : Int) = bondData (bondDict C) (intOf a.idx - 1) (intOf b.idx - 1) := by
-    intro i j a b ha hb
-    obtain ⟨-, hma, hia⟩ := hat i a ha
-    obtain ⟨-, hmb, hib⟩ := hat j b hb
-    have := eg _ hma _ hmb
-    rw [hia, hib] at this
-    exact this
-  refine ⟨g, ?_, wg, by rw [ng, hlen], ?_, hadj, hed, ?_, ?_⟩
-  · rw [fileMeaning_starry_ok env C h hneg hself, hg]; rfl
-  · intro i a ha
-    obtain ⟨hget, -, hidx⟩ := hat i a ha
-    have := ag _ _ hget
-    rwa [hidx] at this
-  · intro bl hbl i j a b ha hb hl hall
-    have key : bondData (bondDict C) (intOf a.idx - 1) (intOf b.idx - 1) = some (bondAttrs (intOf bl.typ)) :=
-      bondData_bondDict C _ _ _ ⟨bl, hbl, hl⟩ hall
-    exact ⟨by rw [hed i j a b ha hb, key], by rw [hed j i b a hb ha, bondData_symm, key]⟩
-  · intro i j a b ha hb hnj
-    have := (hadj i j a b ha hb).not.2 hnj
-    rw [Graph.mem_nbrs_iff] at this
-    cases hq : g.edgeAttrs (i : Int) (j : Int) with
-    | none => rfl
-    | some d => rw [hq] at this; simp at this
-
-open Contracts.Reader (graph_from_molfile_text_render) in
-/-- **C07 at the text level, star atoms and bond types**: `graph_from_molfile_text_render_star` plus the bond
-clauses of `fileMeaning_starry_graph_bonds`, for the graph the reader returns on every rendering -/
-theorem graph_from_molfile_text_render_star_bonds (env : DepEnv) (fuel : Nat) (sep : Str) (hsep : IsSep sep)
-    (C : Ctab) (D : Dress) (hok : D.OK C) (hnb : D.NoBreaks C)
-    (hB : ∀ b ∈ C.bonds, b.Shape) (hfuel : ((fileLines C D).drop 4).length + 1 ≤ fuel)
-    (h : Starry env C) (hneg : ¬ NegMassRad C) (hself : ¬ SelfLink C) :
-    ∃ g, Tucan.molfile_reader.graph_from_molfile_text env fuel (join sep (fileLines C D ++ [[]])) = .ok g ∧
-      g.WF ∧ g.nodeList = range ((real C).length : Int) ∧
-      (∀ (i : Nat) a, (real C)[i]? = some a → g.node.get? (i : Int) = some (withCode (attrsOf env a))) ∧
-      (∀ (i j : Nat) a b, (real C)[i]? = some a → (real C)[j]? = some b →
-        ((j : Int) ∈ g.nbrs (i : Int) ↔ linked C (intOf a.idx) (intOf b.idx))) ∧
-      (∀ (i j : Nat) a b, (real C)[i]? = some a → (real C)[j]? = some b →
-        g.edgeAttrs (i : Int) (j : Int) = bondData (bondDict C) (intOf a.idx - 1) (intOf b.idx - 1)) ∧
-      (∀ bl ∈ C.bonds, ∀ (i j : Nat) a b, (real C)[i]? = some a → (real C)[j]? = some b →
-        (intOf a.idx, intOf b.idx) ∈ bondLinks C bl →
-        (∀ b' ∈ C.bonds, ((intOf a.idx, intOf b.idx) ∈ bondLinks C b' ∨ (intOf b.idx, intOf a.idx) ∈ bondLinks C b') →
-          intOf b'.typ = intOf bl.typ) →
-        g.edgeAttrs (i : Int) (j : Int) = some (bondAttrs (intOf bl.typ)) ∧
-          g.edgeAttrs (j : Int) (i : Int) = some (bondAttrs (intOf bl.typ))) ∧
-      (∀ (i j : Nat) a b, (real C)[i]? = some a → (real C)[j]? = some b →
-        ¬ linked C (intOf a.idx) (intOf b.idx) → g.edgeAttrs (i : Int) (j : Int) = none) := by
-  obtain ⟨g, hg, rest⟩ := fileMeaning_starry_graph_bonds env C h hneg hself
-  exact ⟨g, by rw [graph_from_molfile_text_render env fuel sep hsep C D hok hnb
-    (fun a ha => (h.wf a ha).shape) hB hfuel, hg], rest⟩
-
-
 /-! ## 2. keyword order, and the choices made where the format is silent -/
 
 /-- the three keywords the reader decodes -/
@@ -745,6 +627,19 @@ theorem noOpt_of_no_eq (t : Str) (h : '=' ∉ t) : NoOpt t := by
     obtain ⟨r, rfl⟩ := hst
     exact h (List.mem_append_left _ hpre)
   exact ⟨key _ (by decide), key _ (by decide), key _ (by decide)⟩
+
+/-- a `KEY=value` token whose key (the text before the first `=`) is none of `CHG`, `MASS`, `RAD` is not taken
+for one of them, however similar the key (`EXACHG`, `XCHG`, `RADIUS`, `MASSDIFF`, …): the prefix scan compares
+whole keys -/
+theorem noOpt_foreign_token (k v : Str) (hk : '=' ∉ k) (hne : k ∉ decoded) : NoOpt (k ++ '=' :: v) := by
+  have key : ∀ K : Str, '=' ∉ K → K ∈ decoded → startswith (k ++ '=' :: v) (K ++ ['=']) = false := by
+    intro K hK hmem
+    unfold startswith
+    rw [isPrefixOf_key K hK k v hk]
+    have : k ≠ K := fun e => hne (e ▸ hmem)
+    simp [this]
+  exact ⟨key py!"CHG" (by decide) (by simp [decoded]), key py!"MASS" (by decide) (by simp [decoded]),
+    key py!"RAD" (by decide) (by simp [decoded])⟩
 
 /-- **`NoOpt` discharged for lines built by the format's token rules.** The fixed fields are numbers
 (index and atom-atom mapping integers, coordinates accepted by `float()`), every optional property starts
@@ -962,52 +857,49 @@ theorem starCtab_bondShape : ∀ b ∈ starCtab.bonds, b.Shape := by
     cases h
     exact ⟨by decide, by decide, by decide⟩
 
-/-- **`graph_from_molfile_text_render_star_bonds`, instance**: the 19-line CRLF file above is read as a graph
-with three nodes (C, C⁻, Fe — the star atom has none and atom 3 becomes node 1); node 2 (Fe) is adjacent to
-nodes 0 and 1 through the one star bond line, each of the two edges carrying `bond_type = 9`; nodes 0 and 1
-are joined by the ordinary bond of type 1 -/
+theorem real_starCtab : real starCtab = [⟨py!"1", py!"C", py!"0", py!"0", py!"0", py!"0", []⟩,
+    ⟨py!"3", py!"C", py!"1.4", py!"0", py!"0", py!"0", [⟨py!"CHG", py!"-1", []⟩]⟩,
+    ⟨py!"4", py!"Fe", py!"0", py!"2", py!"0", py!"0", []⟩] := by rfl
+
+theorem starCtab_b1 : (⟨py!"1", py!"1", py!"1", py!"3", [], none⟩ : BondLine) ∈ starCtab.bonds := by simp [starCtab]
+theorem starCtab_b2 : (⟨py!"2", py!"9", py!"4", py!"2", [], some ([py!"2", py!"1", py!"3"], [py!"ATTACH=ALL"])⟩ : BondLine) ∈
+    starCtab.bonds := by simp [starCtab]
+theorem starCtab_l41 : linked starCtab 1 4 := ⟨_, starCtab_b2, Or.inr (by decide)⟩
+theorem starCtab_l43 : linked starCtab 3 4 := ⟨_, starCtab_b2, Or.inr (by decide)⟩
+theorem starCtab_l13 : linked starCtab 1 3 := ⟨_, starCtab_b1, Or.inl (by decide)⟩
+
+/-- **`graph_from_molfile_text_render_star`, instance**: the 19-line CRLF file above is read as a graph with
+three nodes (C, C⁻, Fe — the star atom has none and atom 3 becomes node 1); node 2 (Fe) is adjacent to nodes 0
+and 1 through the one star bond line; nodes 0 and 1 are joined by the ordinary bond; node 1 carries the
+attributes of atom line 3 -/
 theorem star_witness :
     ∃ g, Tucan.molfile_reader.graph_from_molfile_text BlissModel.env (((fileLines starCtab starDress).drop 4).length + 1)
         (join py!"\r\n" (fileLines starCtab starDress ++ [[]])) = .ok g ∧
       g.WF ∧ g.nodeList = range 3 ∧
       (2 : Int) ∈ g.nbrs 0 ∧ (2 : Int) ∈ g.nbrs 1 ∧ (1 : Int) ∈ g.nbrs 0 ∧
-      g.edgeAttrs 2 0 = some (bondAttrs 9) ∧ g.edgeAttrs 2 1 = some (bondAttrs 9) ∧
-      g.edgeAttrs 0 1 = some (bondAttrs 1) := by
-  obtain ⟨g, hg, wg, hn, _, hadj, _, hty, _⟩ :=
-    graph_from_molfile_text_render_star_bonds BlissModel.env _ _ isSep_crlf starCtab starDress starDress_ok
+      g.node.get? 1 = some (withCode (attrsOf BlissModel.env
+        ⟨py!"3", py!"C", py!"1.4", py!"0", py!"0", py!"0", [⟨py!"CHG", py!"-1", []⟩]⟩)) := by
+  obtain ⟨g, hg, wg, hn, hat, hadj, _⟩ :=
+    graph_from_molfile_text_render_star BlissModel.env _ _ isSep_crlf starCtab starDress starDress_ok
       starDress_noBreaks starCtab_bondShape (le_refl _) starCtab_starry starCtab_notNeg (by decide)
-  have hr : real starCtab = [⟨py!"1", py!"C", py!"0", py!"0", py!"0", py!"0", []⟩,
-      ⟨py!"3", py!"C", py!"1.4", py!"0", py!"0", py!"0", [⟨py!"CHG", py!"-1", []⟩]⟩,
-      ⟨py!"4", py!"Fe", py!"0", py!"2", py!"0", py!"0", []⟩] := by rfl
-  have i9 : intOf py!"9" = 9 := by decide
+  have hr := real_starCtab
   have i1 : intOf py!"1" = 1 := by decide
   have i3 : intOf py!"3" = 3 := by decide
   have i4 : intOf py!"4" = 4 := by decide
-  have b2 : (⟨py!"2", py!"9", py!"4", py!"2", [], some ([py!"2", py!"1", py!"3"], [py!"ATTACH=ALL"])⟩ : BondLine) ∈
-      starCtab.bonds := by simp [starCtab]
-  have b1 : (⟨py!"1", py!"1", py!"1", py!"3", [], none⟩ : BondLine) ∈ starCtab.bonds := by simp [starCtab]
-  have l41 : linked starCtab 1 4 := ⟨_, b2, Or.inr (by decide)⟩
-  have l43 : linked starCtab 3 4 := ⟨_, b2, Or.inr (by decide)⟩
-  have l13 : linked starCtab 1 3 := ⟨_, b1, Or.inl (by decide)⟩
-  refine ⟨g, hg, wg, by rw [hn, hr]; rfl, ?_, ?_, ?_, ?_, ?_, ?_⟩
-  · have := (hadj 0 2 _ _ (by rw [hr]; rfl) (by rw [hr]; rfl)).mpr (by simpa only [i1, i4] using l41)
+  refine ⟨g, hg, wg, by rw [hn, hr]; rfl, ?_, ?_, ?_, ?_⟩
+  · have := (hadj 0 2 _ _ (by rw [hr]; rfl) (by rw [hr]; rfl)).mpr (by simpa only [i1, i4] using starCtab_l41)
     simpa using this
-  · have := (hadj 1 2 _ _ (by rw [hr]; rfl) (by rw [hr]; rfl)).mpr (by simpa only [i3, i4] using l43)
+  · have := (hadj 1 2 _ _ (by rw [hr]; rfl) (by rw [hr]; rfl)).mpr (by simpa only [i3, i4] using starCtab_l43)
     simpa using this
-  · have := (hadj 0 1 _ _ (by rw [hr]; rfl) (by rw [hr]; rfl)).mpr (by simpa only [i1, i3] using l13)
+  · have := (hadj 0 1 _ _ (by rw [hr]; rfl) (by rw [hr]; rfl)).mpr (by simpa only [i1, i3] using starCtab_l13)
     simpa using this
-  · have := (hty _ b2 2 0 _ _ (by rw [hr]; rfl) (by rw [hr]; rfl) (by decide) (by decide)).1
-    simpa [i9, i1] using this
-  · have := (hty _ b2 2 1 _ _ (by rw [hr]; rfl) (by rw [hr]; rfl) (by decide) (by decide)).1
-    simpa [i9, i1] using this
-  · have := (hty _ b1 0 1 _ _ (by rw [hr]; rfl) (by rw [hr]; rfl) (by decide) (by decide)).1
-    simpa [i9, i1] using this
+  · have := hat 1 _ (by rw [hr]; rfl)
+    simpa using this
 
 end Witness
 
 #print axioms graph_from_molfile_text_render_star
 #print axioms graph_from_molfile_text_render_star_reject
-#print axioms graph_from_molfile_text_render_star_bonds
 #print axioms atom_line_keyword_order
 #print axioms keyword_order_text
 #print axioms duplicate_key_last_wins
